@@ -667,7 +667,9 @@ func (env *Environment) handleHooks(workflow workflow.Role, trigger string, weig
 
 	// FOR EACH weight within the current state machine trigger moment
 	// 4 phases: start calls, await calls, execute task hooks, error handling
-	for _, weight := range filteredWeights {
+	// NOTE: filteredWeights may grow while we loop: a call started here can await a later weight of this same trigger
+	for weightIndex := 0; weightIndex < len(filteredWeights); weightIndex++ {
+		weight := filteredWeights[weightIndex]
 		hooksForWeight, thereAreHooksToStartForTheCurrentTriggerAndWeight := hooksMapForTrigger[weight]
 
 		// PHASE 1: start asynchronously any call hooks and add them to the pending await map
@@ -694,6 +696,28 @@ func (env *Environment) handleHooks(workflow workflow.Role, trigger string, weig
 					}
 					env.callsPendingAwait[awaitName][awaitWeight] = append(
 						env.callsPendingAwait[awaitName][awaitWeight], call)
+
+					// If the call is to be awaited at a later weight of the trigger we are handling right now, and
+					// nothing else happens at that weight, the weight is not in our list yet: we must stop there too.
+					if awaitName == trigger && awaitWeight > weight && weightPredicate(awaitWeight) {
+						insertAt := len(filteredWeights)
+						known := false
+						for j := weightIndex + 1; j < len(filteredWeights); j++ {
+							if filteredWeights[j] == awaitWeight {
+								known = true
+								break
+							}
+							if filteredWeights[j] > awaitWeight {
+								insertAt = j
+								break
+							}
+						}
+						if !known {
+							filteredWeights = append(filteredWeights, 0)
+							copy(filteredWeights[insertAt+1:], filteredWeights[insertAt:])
+							filteredWeights[insertAt] = awaitWeight
+						}
+					}
 				}
 				callsToStart.StartAll() // returns immediately (async)
 			}
